@@ -66,6 +66,15 @@ def requests(tier, rng):
     for (seed, nonce) in S.find_eta_seeds(4, 2, rng, want=(2 if tier == "quick" else 8)):
         for s in ("lvl3", "ml_dsa_65"):
             L.append("poly::%s::uniform_eta %s %d" % (s, hx(seed), nonce))
+    # corpus of "tight" streams (kat/eta_tight_seeds.json, found once by search): the refill block's first (256 - accepted)
+    # bytes do not hold enough accepted half-bytes -- where a sampler that limits the bytes it examines goes wrong
+    import json, os
+    from .. import core as _core
+    tight = json.load(open(os.path.join(_core.VERIF, "kat", "eta_tight_seeds.json")))
+    for eta, sets in (("2", ("lvl2", "ml_dsa_44", "lvl5", "ml_dsa_87")), ("4", ("lvl3", "ml_dsa_65"))):
+        for (seedhex, nonce) in tight["streams"][eta][: (4 if tier == "quick" else 12)]:
+            for s in sets:
+                L.append("poly::%s::uniform_eta %s %d" % (s, seedhex, nonce))
     for lv in ("lvl2", "lvl3", "lvl5"):
         for _ in range(1 if tier == "quick" else 6):
             seed = R(64)
